@@ -9,4 +9,8 @@ import XzVerif.Props.C01
 #print axioms Props.C01.C01_bintree_no_index_panic
 #print axioms Props.C01.C01_hashtable4_no_index_panic
 #print axioms Props.C01.C01_applicable_is_goOpOk
+#print axioms Props.C01.C01_xz_writer_roundtrip
+#print axioms Props.C01.C01_xz_writer_roundtrip_hashtable4
+#print axioms Props.C01.C01_xz_writer_roundtrip_bintree
+#print axioms Props.C01.C01_block_distribution
 #print axioms Props.C01.C01_init_table_ok
